@@ -181,14 +181,34 @@ package wal
 //@ trusted
 //@ modifies fields(readOnlySegmentsGroup), fields(readOnlySegment)
 
-//@ func readOnlySegmentsGroup.Get
+//@ func readOnlySegmentsGroup.cleanSegmentsCache
 //@ trusted
-//@ modifies fields(readOnlySegmentsGroup), fields(readOnlySegment)
+//@ modifies ghset(keys, r.openSegments), fields(readOnlySegment)
+//@ note trusted: closes and drops cache entries by age and count (gods tree iterator)
+
+//@ func ReadOnlySegment.LastOffset
+//@ trusted
+//@ pure
+//@ ensures result == ghost(lastOff, recv)
+
+// Get serves an offset from the segment whose base offset is the greatest listed base
+// offset not above it — from the cache of open segments only when the cached segment
+// really reaches up to the offset (its last offset is checked), otherwise by opening the
+// listed segment.
+//
+//@ func readOnlySegmentsGroup.Get(r, offset) (res, err)
+//@ property C09
+//@ assume r.allSegments != nil && r.openSegments != nil because "both trees are created by newReadOnlySegmentsGroup, the only constructor, and never reassigned"
+//@ assume forall k int64 :: ghset(keys, r.openSegments, k) ==> ghset(keys, r.allSegments, k) because "invariant of the group (kept by PollHighestSegment, proved; TrimSegments removes from both; Get caches only listed base offsets)"
+//@ assume at call Tree.Floor#0: found ==> node.Value != nil && ghost(segBase, node.Value) == node.Key && forall k int64 :: ghset(keys, r.allSegments, k) && k > node.Key ==> ghost(segLast, node.Value) < k because "segments are contiguous and do not overlap: the last offset of a segment is below the base offset of every later segment; a cached entry is stored under its own base offset"
+//@ assume at call newReadOnlySegment#0: result1 == nil ==> ghost(baseOff, result0) == baseOffset because "a segment is opened under the base offset it is asked for"
+//@ ensures err == nil ==> res != nil && ghost(segBase, res) <= offset && forall k int64 :: old(ghset(keys, r.allSegments, k)) && k <= offset ==> k <= ghost(segBase, res)
+//@ modifies ghset(keys, r.openSegments), fields(readOnlySegment)
 
 //@ func ReadOnlySegment.BaseOffset
 //@ trusted
 //@ pure
-//@ ensures 0 <= result && result < 4611686018427387904
+//@ ensures 0 <= result && result < 4611686018427387904 && result == ghost(baseOff, recv)
 
 //@ func ReadOnlySegment.LastCrc
 //@ trusted
